@@ -45,9 +45,21 @@ CLAIMED = {
          "WellFormed()!=nil iff the documented predicate; String() carries 'malformed!' iff WellFormed()!=nil.", "predicates transcribed from the property statement"),
  "C18": ("exploration", "2-safety by exhaustive self-composition: all CONNECT shapes x all pairs of equally long credential contents, Dump and String compared", "3.C18",
          "All 56 content combinations per (shape, length) must render identically: 56x55 ordered pairs for 12k shapes x lengths 1,2,9 (+65535 on bases), API-built and wire-decoded.", "only Dump and String are in scope"),
+ "C11": ("model_checking", "exhaustive exploration of map-iteration orders through a build-overlay seam (every permutation, plus independent per-range orders within a deviation bound) and explicit-state self-loop search for read-only operations by deep digest", "3.C11",
+         "Every ordering Go may choose for every map range executed by WriteTo/String/Dump must give identical output; every sequence <=3 of {WriteTo,String,Dump,WellFormed,accessors} must leave bytes, accessors and renderings unchanged (decided through the concrete-state digest); free-running cross-process fingerprint as cross-check.",
+         "map order is the only runtime order nondeterminism in sequential Go; other sources are scanned for statically and reported"),
+ "C13": ("model_checking", "statement-level transient-write monitor by deep digest (decides race freedom under a static no-synchronisation gate) plus preemption-bounded exhaustive schedule exploration under a cooperative scheduler on the real code; race detector as secondary pass", "3.C13",
+         "Any write to shared state by a read-only operation at any statement point is found for all 15 types x field deviations x operations; all schedules with <=1/2 preemptions of 2-3 goroutines over 36 shared-packet scenarios must reproduce the sequential outputs.",
+         "statement granularity; race detector silence decides nothing; gate failure downgrades the monitor to advisory"),
+ "C14": ("model_checking", "explicit enumeration of decode/scribble/encode/render/set histories over a pool of real packets and a reused buffer, with bystander snapshots and alias analysis of the concrete object graphs", "3.C14",
+         "All operation sequences <=3/4 over 51 operations: bystanders unchanged, decodes history independent, constructors history independent, no mutable memory shared between packets or with the caller's buffer.",
+         "strings are immutable and may be shared"),
+ "C19": ("exploration", "exhaustive enumeration of packet values (zero/constructor values, every state of the C12 setter search, every packet accepted from the C04 input families, all 256 values of every rendered byte) rendered under a step budget", "3.C19",
+         "String, Dump, WellFormed, WriteTo(discard) never panic nor exceed the step budget on any enumerated value.",
+         "budget = statement points on the instrumented build"),
 }
 
-ENGINE = {"C06":"E2","C07":"E1","C08":"E1","C12":"E2","C15":"E3","C04":"E3","C05":"E3","C16":"E3"}
+ENGINE = {"C11":"E1+E2","C13":"E2+E1","C14":"E2","C19":"E2+E3","C06":"E2","C07":"E1","C08":"E1","C12":"E2","C15":"E3","C04":"E3","C05":"E3","C16":"E3"}
 
 props=[json.loads(l) for l in open('properties.jsonl')]
 hooks=subprocess.check_output(['git','-C','/repo','log','--format=%h','--','verif_hooks.go']).decode().split()
